@@ -308,6 +308,7 @@ func genLogSites() string {
 	b.WriteString("def writeSites : List WriteSite := [\n  " + strings.Join(writes, ",\n  ") + "]\n\n")
 	b.WriteString("def eventLits : List EventLit := [\n  " + strings.Join(events, ",\n  ") + "]\n\n")
 	b.WriteString("/-- credential selectors mentioned inside the system transport's argv builder (must be empty) -/\ndef argvBuilderMentions : List String := [" + strings.Join(argv, ", ") + "]\n\n")
+	b.WriteString(genErrSites(srcs))
 	b.WriteString("end Scrapli.Gen.Logs\n")
 	return b.String()
 }
